@@ -661,6 +661,69 @@ def sec_purity(rec, patches=None):
                                   key="C19/purity/operator-exponents", replay=replay_purity, nonlinear=True, twin=False)
 
 
+def sec_provider_purity(rec, patches=None):
+    """a provider is a function of the scale alone: evaluating it does not modify the parameter arrays it was built from (float64 arrays are the risky case: np.asarray returns the
+    caller's own array), so a second evaluation equals the first"""
+    # numpy with its own aliasing semantics (np.asarray of a float64 array IS that array); concrete scales: the claim is about object identity, not about values
+    from symx.npshim import SymNP
+
+    L = load.load(MODS, overrides={"np": SymNP(symbolic_float_arrays=False)}, patches=patches)
+    I = L["acryo.pipe._imread"]
+    rec.encodes("acryo/pipe/_imread.py:from_gaussian (parameters not modified)", "acryo/pipe/_imread.py:_as_3_array", "acryo/pipe/_imread.py:from_array")
+    for sc in (0.5, 2.0):
+        for dt in (np.float64, np.float32, "tuple"):
+            def mk(v):
+                return tuple(v) if dt == "tuple" else np.array(v, dtype=dt)
+
+            params = {"shape": mk([3.0, 2.0, 4.0]), "sigma": mk([1.0, 1.5, 0.5]), "shift": mk([0.5, 0.0, -0.5])}
+            before = {k: (np.array(v, dtype=float).copy()) for k, v in params.items()}
+            tag = f"provider-purity/from_gaussian[scale={sc},{dt if isinstance(dt, str) else np.dtype(dt).name}]"
+
+            def run():
+                p = I.from_gaussian(shape=params["shape"], sigma=params["sigma"], shift=params["shift"])
+                a = p(sc)
+                b = p(sc)
+                return a, b
+
+            for pi, pth in enumerate(explore(run, max_paths=10)):
+                if not pth.ok:
+                    rec.fact(f"{tag}/path{pi}/runs", False, key="C19/provider-purity/raises", detail={"exc": repr(pth.exc)[:300]}, reproduced=replay_provider_purity({})[0])
+                    for k, v in params.items():
+                        if not isinstance(v, tuple):
+                            v[...] = before[k]
+                    continue
+                a, b = (_obj(x) for x in pth.result)
+                okp = all(np.array_equal(np.array(params[k], dtype=float), before[k]) for k in params)
+                rec.fact(f"{tag}/path{pi}/parameters-not-modified", bool(okp), key="C19/provider-purity/parameters-modified", detail={k: np.array(v, dtype=float).tolist() for k, v in params.items()},
+                         reproduced=True if okp else replay_provider_purity({})[0])
+                same = a.shape == b.shape and np.allclose(np.asarray(a, dtype=float), np.asarray(b, dtype=float))
+                rec.fact(f"{tag}/path{pi}/second-evaluation-equals-the-first", bool(same), key="C19/provider-purity/not-repeatable", detail={"shapes": [list(a.shape), list(b.shape)]},
+                         reproduced=True if same else replay_provider_purity({})[0])
+                for k, v in params.items():
+                    if not isinstance(v, tuple):
+                        v[...] = before[k]
+
+
+def replay_provider_purity(cex):
+    from acryo import pipe
+
+    bad = {}
+    for dt in (np.float64, np.float32):
+        shape, sigma, shift = (np.array(v, dtype=dt) for v in ([6.0, 7.0, 8.0], [1.0, 1.5, 0.8], [0.5, 0.0, -0.5]))
+        keep = [x.copy() for x in (shape, sigma, shift)]
+        p = pipe.from_gaussian(shape=shape, sigma=sigma, shift=shift)
+        try:
+            a = np.asarray(p(0.5))
+            b = np.asarray(p(0.5))
+            q = (p + p)(0.5)
+        except Exception as e:
+            bad[np.dtype(dt).name] = repr(e)[:160]
+            continue
+        if a.shape != b.shape or not np.allclose(a, b) or not all(np.array_equal(x, k) for x, k in zip((shape, sigma, shift), keep)) or not np.allclose(q, 2 * a):
+            bad[np.dtype(dt).name] = {"first_shape": list(a.shape), "second_shape": list(b.shape), "shape_parameter_now": shape.tolist()}
+    return len(bad) > 0, {"problems": bad}
+
+
 def _exp_args(t):
     out, stack, seen = [], [t], set()
     while stack:
@@ -710,7 +773,7 @@ def sec_normalize(rec, patches=None):
 
 def sections(tier):
     return [("operators", "checks.c19", "sec_operators", {}), ("compose", "checks.c19", "sec_compose", {}), ("units", "checks.c19", "sec_units", {}),
-            ("gaussian", "checks.c19", "sec_gaussian", {}), ("normalize", "checks.c19", "sec_normalize", {}), ("readers", "checks.c19", "sec_readers", {}), ("purity", "checks.c19", "sec_purity", {})]
+            ("gaussian", "checks.c19", "sec_gaussian", {}), ("normalize", "checks.c19", "sec_normalize", {}), ("readers", "checks.c19", "sec_readers", {}), ("purity", "checks.c19", "sec_purity", {}), ("provider-purity", "checks.c19", "sec_provider_purity", {})]
 
 
 _CL, _MK, _TR, _IM, _LB = "acryo.pipe._classes", "acryo.pipe._masking", "acryo.pipe._transform", "acryo.pipe._imread", "acryo.loader._base"
@@ -759,7 +822,7 @@ def run(tier, procs=None, only=None):
 
 def replay(data):
     key = data.get("key", "")
-    fn = replay_purity if "purity" in key else (replay_readers if "readers" in key else replay_ops)
+    fn = replay_provider_purity if "provider-purity" in key else replay_purity if "purity" in key else (replay_readers if "readers" in key else replay_ops)
     ok, detail = fn(data.get("cex") or {})
     print("replay:", detail)
     print("REPRODUCED" if ok else "not reproduced")
